@@ -48,12 +48,20 @@ def run(res, tier, br, model_ok=True, search=False):
                    "int\tscale(int delta, int speed, int *count)\n{\n\tint\tres;\n\n\tres = delta * speed;\n\tres = res + delta * *count;\n\tres = (delta) * speed & *count;\n"
                    "\treturn (res * delta);\n}\n"),
     ]
+    bases += [
+        # macros used in every kind of expression and declarator, enum constants, function-like macros that stringize
+        # and paste their parameters (inside and outside a conditional block)
+        ("mac.c", "#define TAX 9\n#define SPICE 2\n#define COMMB 3\n#define RETURM 4\n#define NEWLINK 5\n\nint\tg_buf[TAX];\n\nenum e_k\n{\n\tAAA = SPICE,\n\tBBB\n};\n\n"
+                  "int\tuse(int a, int c)\n{\n\tint\ttab[COMMB];\n\n\tc = a * TAX;\n\ttab[0] = SPICE + COMMB;\n\tif (a == NEWLINK && c != BBB)\n\t\treturn (RETURM);\n\treturn (TAX);\n}\n"),
+        ("str.h", "#ifndef STR_H\n# define STR_H\n\n# define STR(name) #name\n# define GLUE(a, b) a ## b\n# ifdef DEBUG\n#  define SHOW(val, fmt) printf(#val fmt, val)\n# endif\n\nint\tft_len(char *name);\n\n#endif\n"),
+        ("zero.c", "#ifdef DEBUG\n# define GLUE(head, tail) head ## tail\n# define NAME(word) #word\n#endif\n\nint\tzero(int word, int tail)\n{\n\treturn (word - tail);\n}\n"),
+    ]
     bases += families.repo_samples() if big else families.repo_samples()[::4]
     for name, src in bases:
         o0, d0, _ = meta.diags(name, src)
         if o0 not in ("ok", "fatal"):
             continue
-        for _ in range(8 if big else (10 if name in ('cond.c', 'sub.c', 'ft.h') else 4)):
+        for _ in range(8 if big else (10 if name in ('cond.c', 'sub.c', 'ft.h', 'mac.c', 'str.h', 'zero.c') else 4)):
             rn = meta.renaming(src, name, rng, keywords)
             if not rn:
                 break
